@@ -1,5 +1,6 @@
 import RawPanelVerif.Base.Wire
 import RawPanelVerif.Model.DecOut
+import RawPanelVerif.Model.EncOut
 import RawPanelVerif.Spec.GrammarOut
 import RawPanelVerif.Gen.Consts
 /-!
@@ -20,6 +21,14 @@ CONN  := ~ | + n hex*            RTS := ~ | + boots total session screensaver
 SYS   := ~ | + usage temp ext volt i1 … i8 <8 chars 0/1>       (floats: hex of Go's shortest 'g' text)
 ev    := id BIN PUL ABS SPD RAW  BIN := ~ | + pressed edge ; PUL, ABS, SPD, RAW := ~ | + value
 reg   := reg idhex value
+```
+Further records (harness/convout.go, convseq.go):
+```
+eout.msgsx d <msgs> X n (mi ei ts absPrev speedPrev)* F k (mi fault)* | as eout.msgs     the messages with their non-carried fields set
+eout.seq / eout.par / eout.reuse k <msgs>* | m·k line lists ; <oracle>    result j belongs to call j mod k, judged like eout.msgs d
+eout.fields | <Message.field>*               = EncOut.protoFieldsRead ++ EncOut.protoFieldsNotCarried
+dout.seq / dout.par k (<n> <hexline>*)* | 2k <msgs> ; <oracle>            result j belongs to batch j mod k, judged like dout.lines
+dout.ctx <n> <hexline>* | <msgs> ; <oracle> (L <hexline> <msgs>)*         the batch read with the outside lines' own meaning
 ```
 Oracle entries (after a `;` token in the implementation half — values of strconv / encoding/json computed by the harness):
 `F prec gtok text` (`%.<prec>f`), `P text gtok` (ParseFloat 32), `J <NET fields> json` (json.Marshal), `U json (~ | + NET fields)` (json.Unmarshal).
@@ -154,6 +163,8 @@ structure Tables where
   p : List (Bytes × Bytes) := []
   j : List (NetCfg × Bytes) := []
   u : List (Bytes × Option NetCfg) := []
+  /-- `L` entries: what the implementation returned for a line alone -/
+  alone : List (Bytes × List (Option OutMsg)) := []
 
 def pOracle : (fuel : Nat) → Tables → P Tables
   | 0, t => pure t
@@ -175,6 +186,9 @@ def pOracle : (fuel : Nat) → Tables → P Tables
         else if k = "U" then do
           let x ← pHex; let c ← pOpt pNet
           pOracle n { t with u := (x, c) :: t.u }
+        else if k = "L" then do
+          let x ← pHex; let ms ← pMsgs
+          pOracle n { t with alone := (x, ms) :: t.alone }
         else failure : P Tables) s
 
 def unknownTok : Bytes := [63]
@@ -263,6 +277,27 @@ def decTag (o : OutOracle) (l : Bytes) : List String :=
 def parseAll {α : Type} (p : P α) (ts : List String) : Option α :=
   match p ts with | some (a, []) => some a | _ => none
 
+/-- one call of the encoder: `lines` = what the implementation returned (`none` = panic / marshal error) -/
+def evalEnc (o : OutOracle) (mode : String) (ms : List OutMsg) (lines : Option (List Bytes)) : String :=
+        -- mode c: what the C caller of rawpanel-lib-c reads (LF-join, C.CString: up to the first NUL), split at LF
+        let nul := mode = "c" && (EncOut.encOut o ms).any (fun l => l.contains 0)
+        let model := match mode, ms with
+          | "c", [m] => EncOut.cBindingLines o m
+          | _, _ => EncOut.encOut o ms
+        let tags := ("mode." ++ mode) :: (if nul then ["c.nul-truncated"] else []) ++ ms.flatMap encTags
+        match lines with
+        | none =>
+          -- panic or marshal error
+          s!"NE H0:panic {hexLines model}{tagStr tags}"
+        | some lines =>
+          let inDom := Spec.Out.inDomainOut o ms && !nul
+          let h :=
+            if !inDom then "H1"
+            else if Spec.Out.approx (ms.map (Spec.Out.effectsOfOut o)) (Spec.Out.readOutbound o lines) then "H1"
+            else "H0:effects"
+          let tags := if inDom then tags else "ood" :: tags
+          if canon model = canon lines then s!"EQ {h}{tagStr tags}" else s!"NE {h} {hexLines model}{tagStr tags}"
+
 /-- `eout.msgs <mode> <msgs> | <n> <hexline>* ; <oracle>`   (mode d = direct call, c = Marshal→Unmarshal→encode→join LF, one message) -/
 def stepEnc (args : List String) (impl : String) : String :=
   match args with
@@ -276,38 +311,105 @@ def stepEnc (args : List String) (impl : String) : String :=
       let (outT, orT) := splitSemi (implTokens impl)
       match parseAll (pOracle orT.length {}) orT with
       | none => "ERR bad-oracle"
-      | some tb =>
-        let o := oracleOf tb true
-        -- mode c: what the C caller of rawpanel-lib-c reads (LF-join, C.CString: up to the first NUL), split at LF
-        let nul := mode = "c" && (EncOut.encOut o ms).any (fun l => l.contains 0)
-        let model := match mode, ms with
-          | "c", [m] => EncOut.cBindingLines o m
-          | _, _ => EncOut.encOut o ms
-        let tags := ("mode." ++ mode) :: (if nul then ["c.nul-truncated"] else []) ++ ms.flatMap encTags
-        match parseAll (pList pHex) outT with
-        | none =>
-          -- panic or marshal error
-          s!"NE H0:panic {hexLines model}{tagStr tags}"
-        | some lines =>
-          let inDom := Spec.Out.inDomainOut o ms && !nul
-          let h :=
-            if !inDom then "H1"
-            else if Spec.Out.approx (ms.map (Spec.Out.effectsOfOut o)) (Spec.Out.readOutbound o lines) then "H1"
-            else "H0:effects"
-          let tags := if inDom then tags else "ood" :: tags
-          if canon model = canon lines then s!"EQ {h}{tagStr tags}" else s!"NE {h} {hexLines model}{tagStr tags}"
+      | some tb => evalEnc (oracleOf tb true) mode ms (parseAll (pList pHex) outT)
   | _ => "ERR bad-record"
 
-/-- `dout.lines <n> <hexline>* | <msgs> ; <oracle>` -/
-def stepDec (args : List String) (impl : String) : String :=
-  match parseAll (pList pHex) args with
+/-- the non-carried fields of an `eout.msgsx` record: `X n (mi ei ts absPrev speedPrev)* F k (mi fault)*` -/
+def pExtras : P (List (Nat × Nat × EncOut.EventNC) × List (Nat × Bool)) := do
+  let x ← tok
+  if x ≠ "X" then failure
+  let evs ← pList (do
+    let mi ← pNat; let ei ← pNat; let ts ← pNat; let ap ← pNat; let sp ← pInt
+    pure (mi, ei, ({ timestamp := ts, absPrev := ap, speedPrev := sp } : EncOut.EventNC)))
+  let f ← tok
+  if f ≠ "F" then failure
+  let bus ← pList (do let mi ← pNat; let b ← pBool; pure (mi, b))
+  pure (evs, bus)
+
+/-- the full messages of an `eout.msgsx` record -/
+def withExtras (ms : List OutMsg) (ex : List (Nat × Nat × EncOut.EventNC) × List (Nat × Bool)) : List EncOut.OutMsgX :=
+  (ms.zip (List.range ms.length)).map (fun (m, mi) =>
+    { msg := m, busFault := ex.2.lookup mi,
+      evNC := (List.range m.events.length).map (fun ei =>
+        ((ex.1.find? (fun e => e.1 = mi ∧ e.2.1 = ei)).map (·.2.2)).getD {}) })
+
+/-- `eout.msgsx d <msgs> X … F … | <n> <hexline>* ; <oracle>`: the model is `encOutX` (reads the carried part only); the
+property is evaluated against the effects of the carried part (the Spec's effects have no other) -/
+def stepEncX (args : List String) (impl : String) : String :=
+  match args with
+  | mode :: rest =>
+    match (do let ms ← pMsgs; let ex ← pExtras; pure (ms, ex) : P _) rest with
+    | some ((oms, ex), []) =>
+      if oms.any Option.isNone then "ERR nil-input-message"
+      else
+      let xs := withExtras (oms.filterMap id) ex
+      let (outT, orT) := splitSemi (implTokens impl)
+      match parseAll (pOracle orT.length {}) orT with
+      | none => "ERR bad-oracle"
+      | some tb =>
+        let o := oracleOf tb true
+        let lines := parseAll (pList pHex) outT
+        let a := evalEnc o mode (xs.map (·.msg)) lines
+        -- `evalEnc` compares with `encOut` on the carried part, which is `encOutX` by definition; checked here as well
+        let same := match lines with | some ls => canon (EncOut.encOutX o xs) = canon ls | none => false
+        if same = a.startsWith "EQ" then a ++ " B:noncarried" else "ERR model-mismatch"
+    | _ => "ERR bad-record"
+  | _ => "ERR bad-record"
+
+/-- answers of the parts of a multi-call record combined: `NE` if any part differs, the first `H0` clause (with the index
+of its part), the model output of the first differing part, all branch tags -/
+def combine (tag : String) (answers : List String) : String :=
+  let parts := answers.map implTokens
+  if parts.any (fun p => p.head? = some "ERR") then "ERR bad-part"
+  else
+    let ne := parts.any (fun p => p.head? = some "NE")
+    let idx := List.range parts.length
+    let h0 := (parts.zip idx).findSome? (fun (p, i) => match p[1]? with
+      | some h => if h.startsWith "H0" then some s!"{h}@part{i}" else none
+      | none => none)
+    let modelOut := (parts.zip idx).findSome? (fun (p, i) =>
+      if p.head? = some "NE" then some (s!"part{i}: " ++ " ".intercalate ((p.drop 2).filter (fun t => !t.startsWith "B:"))) else none)
+    let tags := tagStr (tag :: parts.flatMap (fun p => (p.filter (·.startsWith "B:")).map (fun t => (t.drop 2).toString)))
+    if ne then s!"NE {h0.getD "H1"} {modelOut.getD ""}{tags}" else s!"EQ {h0.getD "H1"}{tags}"
+
+/-- a sequence of `n hexline*` lists until the tokens are used up -/
+def pManyLines : (fuel : Nat) → P (List (List Bytes))
+  | 0 => pure []
+  | n + 1 => fun s =>
+    match s with
+    | [] => some ([], [])
+    | _ => (do let a ← pList pHex; let r ← pManyLines n; pure (a :: r) : P _) s
+
+def pManyMsgs : (fuel : Nat) → P (List (List (Option OutMsg)))
+  | 0 => pure []
+  | n + 1 => fun s =>
+    match s with
+    | [] => some ([], [])
+    | _ => (do let a ← pMsgs; let r ← pManyMsgs n; pure (a :: r) : P _) s
+
+/-- `eout.seq` / `eout.par` / `eout.reuse`  `k <msgs>* | m·k line lists ; <oracle>` -/
+def stepEncSeq (tag : String) (args : List String) (impl : String) : String :=
+  match parseAll (pList pMsgs) args with
   | none => "ERR bad-record"
-  | some lines =>
+  | some olists =>
+    if olists.any (fun l => l.any Option.isNone) then "ERR nil-input-message"
+    else
+    let lists := olists.map (fun l => l.filterMap id)
+    let k := lists.length
     let (outT, orT) := splitSemi (implTokens impl)
     match parseAll (pOracle orT.length {}) orT with
     | none => "ERR bad-oracle"
     | some tb =>
-      let o := oracleOf tb false
+      let o := oracleOf tb true
+      match parseAll (pManyLines (outT.length + 1)) outT with
+      | none => s!"NE H0:panic - B:{tag}"
+      | some rs =>
+        if k = 0 ∨ rs.length = 0 ∨ rs.length % k ≠ 0 then "ERR bad-impl"
+        else combine tag ((rs.zip (List.range rs.length)).map (fun (r, j) => evalEnc o "d" (lists.getD (j % k) []) (some r)))
+
+/-- one call of the decoder: `outT` = the implementation's message tokens; `alone` = what the implementation returned
+for single lines (`dout.ctx` records; empty otherwise) -/
+def evalDec (o : OutOracle) (lines : List Bytes) (outT : List String) (alone : List (Bytes × List (Option OutMsg))) : String :=
       let model := DecOut.decOut o lines
       let ms := sMsgs model
       let tags := lines.flatMap (decTag o)
@@ -315,12 +417,56 @@ def stepDec (args : List String) (impl : String) : String :=
       | none => s!"NE H0:panic {ms}{tagStr tags}"
       | some oms =>
         let inDom := Spec.Out.inDomainLines o lines
+        let effs := fun (l : List (Option OutMsg)) => (l.filterMap id).flatMap (Spec.Out.effectsOfOut o)
         let h :=
           if oms.any Option.isNone then "H0:nil-message"
-          else if !inDom then "H1"
-          else if (oms.filterMap id).flatMap (Spec.Out.effectsOfOut o) = Spec.Out.readOutbound o lines then "H1"
-          else "H0:effects"
+          else if inDom then
+            (if effs oms = Spec.Out.readOutbound o lines then "H1" else "H0:effects")
+          -- a batch with lines outside the grammar's domain: every line keeps the meaning it has alone
+          else if lines.all (fun l => !l.contains 10) && lines.all (fun l => Spec.Out.readLine o l != .outside || (alone.lookup l).isSome) then
+            (if alone.any (fun e => e.2.any Option.isNone) then "H0:nil-message B:ctx"
+             else if effs oms = Spec.Out.readOutboundWith o (fun l => effs ((alone.lookup l).getD [])) lines then "H1 B:ctx"
+             else "H0:line-context B:ctx")
+          else "H1"
         if " ".intercalate outT = ms then s!"EQ {h}{tagStr tags}" else s!"NE {h} {ms}{tagStr tags}"
+
+/-- `dout.lines <n> <hexline>* | <msgs> ; <oracle>`   and   `dout.ctx … | <msgs> ; <oracle> (L <hexline> <msgs>)*` -/
+def stepDec (args : List String) (impl : String) : String :=
+  match parseAll (pList pHex) args with
+  | none => "ERR bad-record"
+  | some lines =>
+    let (outT, orT) := splitSemi (implTokens impl)
+    match parseAll (pOracle orT.length {}) orT with
+    | none => "ERR bad-oracle"
+    | some tb => evalDec (oracleOf tb false) lines outT tb.alone
+
+/-- `dout.seq k (<n> <hexline>*)* | 2k <msgs> ; <oracle>` -/
+def stepDecSeq (tag : String) (args : List String) (impl : String) : String :=
+  match parseAll (pList (pList pHex)) args with
+  | none => "ERR bad-record"
+  | some batches =>
+    let k := batches.length
+    let (outT, orT) := splitSemi (implTokens impl)
+    match parseAll (pOracle orT.length {}) orT with
+    | none => "ERR bad-oracle"
+    | some tb =>
+      let o := oracleOf tb false
+      match parseAll (pManyMsgs (outT.length + 1)) outT with
+      | none => s!"NE H0:panic - B:{tag}"
+      | some rs =>
+        if k = 0 ∨ rs.length = 0 ∨ rs.length % k ≠ 0 then "ERR bad-impl"
+        else combine tag ((rs.zip (List.range rs.length)).map (fun (r, j) =>
+          evalDec o (batches.getD (j % k) []) (toString r.length :: r.flatMap (fun m => match m with | some m => sMsg m | none => ["N"])) []))
+
+/-- `eout.fields | <Message.field>*` -/
+def stepFields (impl : String) : String :=
+  let got := implTokens impl
+  let want := EncOut.protoFieldsRead ++ EncOut.protoFieldsNotCarried
+  if got.all want.contains && want.all got.contains then "EQ H1 B:proto-fields"
+  else
+    let extra := got.filter (fun f => !want.contains f)
+    let missing := want.filter (fun f => !got.contains f)
+    s!"NE H1 unknown-to-model:{",".intercalate extra} missing-in-proto:{",".intercalate missing} B:proto-fields"
 
 /-! ## the byte matchers of the decoder model against the library's real regular expressions -/
 
@@ -369,7 +515,14 @@ def stepMatch (args : List String) (impl : String) : String :=
 
 def step (cmd : String) (args : List String) (impl : String) : String :=
   if cmd = "eout.msgs" then stepEnc args impl
-  else if cmd = "dout.lines" then stepDec args impl
+  else if cmd = "eout.msgsx" then stepEncX args impl
+  else if cmd = "eout.seq" then stepEncSeq "seq" args impl
+  else if cmd = "eout.par" then stepEncSeq "par" args impl
+  else if cmd = "eout.reuse" then stepEncSeq "reuse" args impl
+  else if cmd = "eout.fields" then stepFields impl
+  else if cmd = "dout.lines" || cmd = "dout.ctx" then stepDec args impl
+  else if cmd = "dout.seq" then stepDecSeq "seq" args impl
+  else if cmd = "dout.par" then stepDecSeq "par" args impl
   else if cmd = "dout.match" then stepMatch args impl
   else if cmd = "dout.rx" then stepRx args impl
   else "ERR bad-record"
